@@ -946,6 +946,57 @@ void applyEquivalenceMapToModel(const EquivalenceMap &map, const ModelPtr &model
     }
 }
 
+void listMathNodeIds(const XmlNodePtr &node, IdList &idList)
+{
+    auto attribute = node->firstAttribute();
+    while (attribute != nullptr) {
+        if (attribute->isType("id") && !attribute->value().empty()) {
+            idList.insert(attribute->value());
+        }
+        attribute = attribute->next();
+    }
+    auto childNode = node->firstChild();
+    while (childNode != nullptr) {
+        listMathNodeIds(childNode, idList);
+        childNode = childNode->next();
+    }
+}
+
+void listMathIds(const std::string &math, IdList &idList)
+{
+    if (math.find("id") == std::string::npos) {
+        return;
+    }
+    for (const auto &doc : multiRootXml(math)) {
+        auto node = doc->rootNode();
+        if (node != nullptr) {
+            listMathNodeIds(node, idList);
+        }
+    }
+}
+
+void listComponentMathIds(const ComponentPtr &component, IdList &idList)
+{
+    listMathIds(component->math(), idList);
+    for (size_t r = 0; r < component->resetCount(); ++r) {
+        auto reset = component->reset(r);
+        listMathIds(reset->testValue(), idList);
+        listMathIds(reset->resetValue(), idList);
+    }
+    for (size_t c = 0; c < component->componentCount(); ++c) {
+        listComponentMathIds(component->component(c), idList);
+    }
+}
+
+IdList listMathIds(const ModelPtr &model)
+{
+    IdList idList;
+    for (size_t c = 0; c < model->componentCount(); ++c) {
+        listComponentMathIds(model->component(c), idList);
+    }
+    return idList;
+}
+
 void listComponentIds(const ComponentPtr &component, IdList &idList)
 {
     std::string id = component->id();
@@ -1003,8 +1054,6 @@ void listComponentIds(const ComponentPtr &component, IdList &idList)
         }
     }
 
-    // Note: identifiers on component and reset MathML blocks and their children are not yet included.
-
     for (size_t c = 0; c < component->componentCount(); ++c) {
         listComponentIds(component->component(c), idList);
     }
@@ -1055,6 +1104,10 @@ IdList listIds(const ModelPtr &model)
     id = model->encapsulationId();
     if (!id.empty()) {
         idList.insert(id);
+    }
+    // Identifiers on component and reset MathML blocks and their children.
+    for (const auto &mathId : listMathIds(model)) {
+        idList.insert(mathId);
     }
 
     return idList;
